@@ -1,5 +1,6 @@
 import MQ.Props.SpecThms
 import MQ.Inv.Frame2
+import MQ.Inv.NRMain
 /-!
 # C13 — with no receivers left, sends fail as Disconnected and never hang
 Sequential level (`Spec`, tied by the differential) and micro-step level (`Core`, tied by the event
@@ -50,5 +51,26 @@ theorem C13_core_disc_returns (σ : St) (t : Nat) :
   split
   · right; simp [St.goto, St.setTh, upd]
   · left; simp [St.goto, St.setTh, upd]
+
+/-! ### the no-reader flag (`NRInv`, `MQ/Inv/NRMain.lean`) -/
+
+/-- C13 (the no-reader flag is accurate and final): in every execution without the futures handle conversions —
+including the removal of the last stream — once the flag is up no stream is on the list, no receiver handle is
+counted on any stream, and this remains so after every further step: the flag never goes up early, and nothing can
+bring a receiver back. -/
+theorem C13_flag_means_no_receiver (N : Nat) (bcast : Bool) (wait : WaitK) (fut : Bool) (ls : List Label)
+    (h : ∀ l ∈ ls, l.noConv) (hf : (runFrom (init N bcast wait fut) ls).noReader = true) :
+    (runFrom (init N bcast wait fut) ls).groups (runFrom (init N bcast wait fut) ls).cur = [] ∧
+    ∀ s, (runFrom (init N bcast wait fut) ls).cl s = [] := by
+  obtain ⟨n, m, _⟩ := nr_run _ ls h (nr_init N bcast wait fut) (minv_init N bcast wait fut) (reginv_init N bcast wait fut)
+  exact ⟨n.flag hf, no_handle_of_no_stream m (n.flag hf)⟩
+
+/-- C13: an empty stream list is final (a stream can only be added through a counted receiver handle) -/
+theorem C13_no_stream_is_final (N : Nat) (bcast : Bool) (wait : WaitK) (fut : Bool) (ls : List Label)
+    (h : ∀ l ∈ ls, l.noConv) (x inp : Nat)
+    (he : (runFrom (init N bcast wait fut) ls).groups (runFrom (init N bcast wait fut) ls).cur = []) :
+    (stepRun (runFrom (init N bcast wait fut) ls) x inp).2.groups (stepRun (runFrom (init N bcast wait fut) ls) x inp).2.cur = [] := by
+  obtain ⟨_, m, r⟩ := nr_run _ ls h (nr_init N bcast wait fut) (minv_init N bcast wait fut) (reginv_init N bcast wait fut)
+  exact empty_stable x inp m r he
 
 end MQ
